@@ -1,12 +1,15 @@
 package main
 
 import (
+	"context"
 	"bytes"
 	"fmt"
 	"net"
 	"strings"
 
 	"github.com/nextdns/nextdns/config"
+	"github.com/nextdns/nextdns/resolver/query"
+	"github.com/nextdns/nextdns/resolver"
 )
 
 // prof area (C11): ordered profile lists x client tuples through the REAL config.Profiles Set / Get.
@@ -84,9 +87,9 @@ func parseDestsTok(s string) []net.IP {
 // the parsed ones) and repeated; it is never compared with the model.
 const envGlitch = "ENV-GLITCH"
 
-func runProfRetry(c *Ctx, src, dst net.IP, mac net.HardwareAddr, entries []string) string {
+func runProfRetry(c *Ctx, src, dst net.IP, mac net.HardwareAddr, entries []string, seq [][3]string) string {
 	for i := 0; i < 6; i++ {
-		if out := runProf(src, dst, mac, entries); out != envGlitch {
+		if out := runProf(src, dst, mac, entries, seq); out != envGlitch {
 			return out
 		}
 		c.Stat("env:interface-addresses-changed-retry")
@@ -94,7 +97,7 @@ func runProfRetry(c *Ctx, src, dst net.IP, mac net.HardwareAddr, entries []strin
 	return envGlitch
 }
 
-func runProf(src, dst net.IP, mac net.HardwareAddr, entries []string) (line string) {
+func runProf(src, dst net.IP, mac net.HardwareAddr, entries []string, seq [][3]string) (line string) {
 	defer func() {
 		if x := recover(); x != nil {
 			line = fmt.Sprintf("PANIC %v", x)
@@ -143,11 +146,55 @@ func runProf(src, dst net.IP, mac net.HardwareAddr, entries []string) (line stri
 			return envGlitch // Set saw no address on an interface that had some a moment ago
 		}
 	}
+	if seq != nil {
+		return runPseq(ps, seq)
+	}
 	var list []string
 	for _, p := range ps {
 		list = append(list, hx([]byte(p.ID))+";"+prefixTok(p.Prefix)+";"+hx(p.MAC)+";"+destsTok(p.DestIPs))
 	}
 	return fmt.Sprintf("list=%s get=%s nilget=%s", joinOrDash(list), hx([]byte(ps.Get(src, dst, mac))), hx([]byte(ps.Get(nil, nil, nil))))
+}
+
+// runPseq: ONE resolver.DOH wired as run.go wires it (static shortcut or per-query
+// Profiles.Get(PeerIP, LocalIP, MAC)) answers a SEQUENCE of queries of several clients; for each
+// query the cache context (Get and Add must agree), the request path and ResolveInfo.Profile are
+// recorded. Anything the resolver remembers about a client between queries must not change the
+// profile a later query of another tuple is resolved under.
+//   pseq <src/dst/mac>,<src/dst/mac>,… <entry>*  ->  seq=<ctx:path:profile>,…   (hex fields)
+func runPseq(ps config.Profiles, seq [][3]string) string {
+	cache := &recCache{}
+	rt := &recRT{}
+	d := &resolver.DOH{Cache: cache}
+	if len(ps) == 0 || (len(ps) == 1 && ps.Get(nil, nil, nil) != "") {
+		profile := ps.Get(nil, nil, nil)
+		d.GetProfileURL = func(q query.Query) (string, string) { return purlPrefix + profile, profile }
+	} else {
+		d.GetProfileURL = func(q query.Query) (string, string) {
+			profile := ps.Get(q.PeerIP, q.LocalIP, q.MAC)
+			return purlPrefix + profile, profile
+		}
+	}
+	var outs []string
+	for i, t := range seq {
+		cache.ctxs, rt.paths, rt.hosts = nil, nil, nil
+		name := fmt.Sprintf("n%d.example.com.", i%3)
+		q := query.Query{ID: uint16(i + 1), Class: query.ClassINET, Type: query.TypeA, Name: name,
+			PeerIP: optIP(t[0]), LocalIP: optIP(t[1]), MAC: net.HardwareAddr(unhx(t[2])),
+			Payload: []byte{0, byte(i + 1), 1, 0, 0, 1, 0, 0, 0, 0, 0, 0}}
+		buf := make([]byte, 512)
+		_, info, err := resolver.VerifC11DOHResolve(d, context.Background(), q, buf, rt)
+		if err != nil {
+			return fmt.Sprintf("err %d:%v", i, err)
+		}
+		ctx, ok1 := uniq(cache.ctxs)
+		path, ok2 := uniq(rt.paths)
+		if !ok1 || !ok2 || len(rt.paths) != 1 {
+			return fmt.Sprintf("inconsistent %d ctxs=%q paths=%q", i, cache.ctxs, rt.paths)
+		}
+		outs = append(outs, hx([]byte(ctx))+":"+hx([]byte(path))+":"+hx([]byte(info.Profile)))
+	}
+	return "seq=" + joinOrDash(outs)
 }
 
 // adaptProfLine makes a stored case independent of the machine it was recorded on: the addresses
@@ -157,11 +204,14 @@ func runProf(src, dst net.IP, mac net.HardwareAddr, entries []string) (line stri
 // dropped.  The rewritten line is what both the real code and the Lean model are given.
 func adaptProfLine(c *Ctx, l string) string {
 	f := strings.Split(l, " ")
-	if len(f) < 4 || f[0] != "prof" {
+	first := 4
+	if len(f) >= 2 && f[0] == "pseq" {
+		first = 2
+	} else if len(f) < 4 || f[0] != "prof" {
 		return l
 	}
-	out := f[:4:4]
-	for _, e := range f[4:] {
+	out := f[:first:first]
+	for _, e := range f[first:] {
 		g := strings.Split(e, ";")
 		if len(g) != 6 || g[2] != "nil" || g[3] != "-" || g[4] == "-" {
 			out = append(out, e) // not an interface entry
@@ -268,15 +318,47 @@ func (r *Rng) genProfEntry(c *Ctx) (profEntry, bool) {
 	return profEntry{raw, fields, dests, final}, true
 }
 
+// genProfEntryRaw parses a given raw entry (interface entries: accepted only when stable).
+func (r *Rng) genProfEntryRaw(c *Ctx, raw string) (profEntry, bool) {
+	fields, pd, err := profParse(raw)
+	if err != nil {
+		return profEntry{}, false
+	}
+	for i := 0; i < 2; i++ {
+		if _, pd2, err2 := profParse(raw); err2 != nil || destsTok(pd2) != destsTok(pd) {
+			return profEntry{}, false
+		}
+	}
+	return profEntry{raw, fields, destsTok(pd), destsTok(pd)}, true
+}
+
 func init() {
 	areas["prof"] = func(c *Ctx) error {
 		runLine := func(l string) string {
 			f := strings.Split(l, " ")
+			if len(f) >= 2 && f[0] == "pseq" {
+				var seq [][3]string
+				for _, t := range strings.Split(f[1], ",") {
+					g := strings.Split(t, "/")
+					if len(g) != 3 {
+						c.Emit(l, "bad-case")
+						return ""
+					}
+					seq = append(seq, [3]string{g[0], g[1], g[2]})
+				}
+				out := runProfRetry(c, nil, nil, nil, f[2:], seq)
+				if out == envGlitch {
+					c.Stat("env:case-dropped")
+					return out
+				}
+				c.Emit(l, out)
+				return out
+			}
 			if len(f) < 4 || f[0] != "prof" {
 				c.Emit(l, "bad-case")
 				return ""
 			}
-			out := runProfRetry(c, optIP(f[1]), optIP(f[2]), net.HardwareAddr(unhx(f[3])), f[4:])
+			out := runProfRetry(c, optIP(f[1]), optIP(f[2]), net.HardwareAddr(unhx(f[3])), f[4:], nil)
 			if out == envGlitch {
 				c.Stat("env:case-dropped")
 				return out
@@ -344,6 +426,40 @@ func init() {
 				c.Stat("mac:short")
 			default:
 				c.Stat("mac:absent")
+			}
+			if r.Chance(15) {
+				// a sequence of queries on one resolver: the same client on several destination
+				// addresses, several clients on one, interleaved (what a resolver might remember
+				// about a client must not decide the profile of a later query)
+				k := 2 + r.Intn(5)
+				srcs := []string{src, hx(r.ipForm(profSrcs[r.Intn(len(profSrcs))]))}
+				dsts := []string{dst, hx(r.ipForm(profDsts[r.Intn(len(profDsts))])), hx(r.ipForm(profDsts[r.Intn(len(profDsts))])), "nil"}
+				m2, _ := net.ParseMAC(profMACs[r.Intn(len(profMACs))])
+				macs := []string{mac, mac, hx(m2), "-"}
+				var ts []string
+				for j := 0; j < k; j++ {
+					ts = append(ts, srcs[r.Intn(len(srcs))]+"/"+dsts[r.Intn(len(dsts))]+"/"+macs[r.Intn(len(macs))])
+				}
+				if r.Chance(50) && len(es) < 6 {
+					if e, ok := r.genProfEntryRaw(c, "lo=p3"); ok {
+						es = append([]profEntry{e}, es...)
+					}
+				}
+				var sb strings.Builder
+				fmt.Fprintf(&sb, "pseq %s", strings.Join(ts, ","))
+				for _, e := range es {
+					fmt.Fprintf(&sb, " %s;%s;%s;%s", hx([]byte(e.raw)), e.fields, e.dests, e.final)
+				}
+				c.Stat("op:pseq")
+				out := runLine(sb.String())
+				if strings.HasPrefix(out, "seq=") {
+					d := map[string]bool{}
+					for _, x := range strings.Split(out[4:], ",") {
+						d[x] = true
+					}
+					c.Stat(fmt.Sprintf("pseq-distinct-profiles:%d", len(d)))
+				}
+				continue
 			}
 			var sb strings.Builder
 			fmt.Fprintf(&sb, "prof %s %s %s", src, dst, mac)
